@@ -26,12 +26,16 @@ func zetaS() []float64 {
 		1, 1.5, 2, 3, 3.5, 4, 5.5, 7, 11.5, 15, 25.5, 36, 45.5, 53, 54, 56, 60, 100.5, 1e10, 1e300,
 		-0.5, -1, -1.5, -2, -2.5, -3, -4, -10.5, -19.5, -20, -20.5, -21, -25.5, -100, -100.5, -101, -169.5, -170.5, -171.5, -199.5,
 		-250.5, -255.5, -259.5, -260.5, -261.5, -263.5, -270.5, -300.5, -1e3 - 0.5, -1e6 - 0.5, -1e15,
+		// witnesses first seen in sweeps
+		-65.62470378569681, -145.70640125994277, -259.7472125512994, -259.92163356713473, -260.14267407188106,
 	}
 	return xs
 }
 
 func zetaSweepS(r *prng.Rand) float64 {
-	switch r.Intn(6) {
+	switch r.Intn(7) {
+	case 6: // the rational pieces of zeta_imp_prec: (1,2], (2,4], (4,7], (7,15), [15,36), [36,56)
+		return r.Uniform(1, 60)
 	case 0:
 		return r.Uniform(-60, 60)
 	case 1:
